@@ -32,7 +32,7 @@ CHECKS = {
         'after reduce(); second real run on the output; constructed '
         'schedules (slow unique success as last result of a sweep; whitelist '
         'commands that force a history across the ddmin/hierarchical '
-        'hand-over)',
+        'hand-over); the sweep does not depend on the pickle transport',
         text='After strategy_hierarchical.reduce returns inside the real '
         'process, a monitor re-enumerates every proposal of every enabled '
         'mutator on the final input and runs the real checker on each; in '
@@ -173,8 +173,8 @@ CHECKS = {
     'C14': dict(
         cat='exploration',
         technique='reference fold of the option sequence vs real pass lists; '
-        'mutator-call events of traced runs (incl. runs in which one mutator '
-        'is made to fail in every call)',
+        'mutator-call and per-sweep application events of traced runs (incl. '
+        'runs in which one mutator is made to fail in every call)',
         text='All single toggles and ordered pairs (exhaustive) and random '
         'longer sequences are parsed by the real option parser; the enabled '
         'set and the pass lists are compared with an independent fold; '
